@@ -122,7 +122,7 @@ type outcome struct {
 func modelVerdict(o *outcome) {
 	o.model = ""
 	for _, a := range o.obs.Anomalies {
-		if strings.Contains(a, "did not close the connection") || strings.Contains(a, "did not return") || strings.HasPrefix(a, "harness:") {
+		if strings.Contains(a, "did not close the connection") || strings.HasPrefix(a, "harness:") {
 			o.model = a
 		}
 	}
@@ -261,7 +261,7 @@ func failClass(s string) string {
 
 func (h *harness) shrink(first *outcome) *outcome {
 	cur := first
-	short := h.deadline / 4
+	short := 1500 * time.Millisecond
 	fails := func(s Session) *outcome {
 		for try := 0; try < 2; try++ {
 			if o := h.evalOne(s, short); sameFailure(o, first) {
@@ -271,9 +271,10 @@ func (h *harness) shrink(first *outcome) *outcome {
 		return nil
 	}
 	budget := 120
+	t0 := time.Now()
 	for changed := true; changed && budget > 0; {
 		changed = false
-		for i := len(cur.sess.Steps) - 1; i >= 0 && budget > 0; i-- {
+		for i := len(cur.sess.Steps) - 1; i >= 0 && budget > 0 && time.Since(t0) < 20*time.Second; i-- {
 			cand := cur.sess
 			cand.Steps = append(append([]Step{}, cur.sess.Steps[:i]...), cur.sess.Steps[i+1:]...)
 			budget--
@@ -365,7 +366,13 @@ func (h *harness) batch(sessions []Session) {
 	n, dump := h.leakCheck(20 * time.Second)
 	if n > h.leakBase {
 		h.run.Count("leak-batches")
-		h.attributeLeak(sessions, n, dump)
+		if !okO {
+			// a session of this batch already violates the property; the goroutines it left behind
+			// are reported with it rather than searched for again
+			h.run.Oblige(obLeak, "oracle", len(sessions), false, fmt.Sprintf("%d goroutine(s) remain inside api-fu after the batch: %s", n-h.leakBase, firstLines(dump, 14)))
+		} else {
+			h.attributeLeak(sessions, n, dump)
+		}
 		h.leakBase, _ = apifuGoroutines()
 	} else {
 		h.run.Oblige(obLeak, "oracle", len(sessions), true, "")
@@ -375,8 +382,8 @@ func (h *harness) batch(sessions []Session) {
 func (h *harness) attributeLeak(sessions []Session, n int, dump string) {
 	for _, s := range sessions {
 		base, _ := apifuGoroutines()
-		h.evalOne(s, h.deadline)
-		if m, d := h.leakCheckFrom(base, 8*time.Second); m > base {
+		h.evalOne(s, 2*time.Second)
+		if m, d := h.leakCheckFrom(base, 5*time.Second); m > base {
 			// shrink on the leak criterion
 			cur := s
 			for changed, budget := true, 40; changed && budget > 0; {
@@ -386,13 +393,13 @@ func (h *harness) attributeLeak(sessions []Session, n int, dump string) {
 					cand.Steps = append(append([]Step{}, cur.Steps[:i]...), cur.Steps[i+1:]...)
 					budget--
 					b0, _ := apifuGoroutines()
-					h.evalOne(cand, h.deadline/4)
-					if m2, d2 := h.leakCheckFrom(b0, 3*time.Second); m2 > b0 {
+					h.evalOne(cand, time.Second)
+					if m2, d2 := h.leakCheckFrom(b0, 2*time.Second); m2 > b0 {
 						cur, changed, d = cand, true, d2
 					}
 				}
 			}
-			what := fmt.Sprintf("%s: after the connection ended %d goroutine(s) remain inside api-fu: %s", cur.String(), m-base, firstLines(d, 14))
+			what := fmt.Sprintf("%s: after the connection ended %d more goroutine(s) remain inside api-fu (all that are there now: %s)", cur.String(), m-base, firstLines(d, 14))
 			h.run.Oblige(obLeak, "oracle", 1, false, what)
 			h.run.Violate("property", what, "", false, replayDoc{Session: cur, Oracle: what})
 			h.failures++
